@@ -211,3 +211,541 @@ def inflate(b):
         return zlib.decompress(b)
     except Exception:   # noqa
         return None
+
+
+# ---------------------------------------------------------------------------
+# driving the implementation
+# ---------------------------------------------------------------------------
+
+KINDS = ("TPlain", "TBasicPre", "TChallenge")
+ACTIONS = ["my-soap-action", "", "urn:x#Op", "http://ex.org/a b", "açtion-é€"]
+REPLY_XML = (b'<?xml version="1.0" encoding="UTF-8"?><env:Envelope xmlns:env="http://schemas.xmlsoap.org/soap/envelope/">'
+             b'<env:Body><r xmlns="my-namespace">%s</r></env:Body></env:Envelope>')
+
+
+def make_transport(kind, user, pw):
+    from suds.transport import http as H, https as HS
+    kw = {}
+    if user is not None:
+        kw["username"] = user
+    if pw is not None:
+        kw["password"] = pw
+    cls = {"TPlain": H.HttpTransport, "TBasicPre": H.HttpAuthenticated, "TChallenge": HS.HttpAuthenticated}[kind]
+    return cls(**kw)
+
+
+class _Tap(object):
+    """MessagePlugin stand-in: sees (and may replace) the envelope bytes handed to the transport."""
+
+    def __init__(self):
+        self.replace = None
+        self.captured = None
+
+    def sending(self, context):
+        if self.replace is not None:
+            context.envelope = self.replace
+        self.captured = context.envelope
+
+
+def make_clients():
+    """One client per soapAction; (client, tap, expected SOAPAction header bytes)."""
+    from . import sudsutil
+    import suds.plugin
+
+    class Tap(_Tap, suds.plugin.MessagePlugin):
+        pass
+    out = []
+    base = sudsutil.doc_wsdl('<xsd:element name="Wrapper" type="xsd:string"/>')
+    for a in ACTIONS:
+        esc = a.replace("&", "&amp;").replace('"', "&quot;").replace("<", "&lt;")
+        w = base.replace(b'soapAction="my-soap-action"', ('soapAction="%s"' % esc).encode("utf-8"))
+        tap = Tap()
+        cl = sudsutil.client_from_wsdl(w, plugins=[tap], retxml=True)
+        out.append((cl, tap, ('"%s"' % a).encode("utf-8")))
+    return out
+
+
+def classify(fn):
+    """Run an implementation call; canonical result tuple."""
+    from suds.transport import TransportError, Reply
+    try:
+        r = fn()
+    except TransportError as e:
+        try:
+            body = e.fp.read() if e.fp is not None else b""
+        except Exception as e2:   # noqa
+            body = ("\x00unreadable:" + repr(e2)).encode()
+        code = e.httpcode if isinstance(e.httpcode, int) else -1
+        return ("te", code, body, e)
+    except (gzip.BadGzipFile, zlib.error, EOFError) as e:
+        return ("decode", e)
+    except Exception as e:   # noqa
+        return ("exc", e)
+    if r is None:
+        return ("none",)
+    if isinstance(r, Reply):
+        code = int(r.code) if isinstance(r.code, int) else -1
+        return ("reply", code, r.message)
+    if isinstance(r, (bytes, bytearray)):
+        return ("reply", 200, bytes(r))
+    if hasattr(r, "read"):
+        try:
+            return ("reply", 200, r.read())
+        except Exception as e:   # noqa
+            return ("exc", e)
+    return ("weird", repr(r)[:80])
+
+
+def c_result(res, blobs, exc_id=None):
+    t = res[0]
+    if t == "reply":
+        return "(RReply %s %s)" % (cN(res[1]) if res[1] >= 0 else "0%N", blobs.c(res[2]))
+    if t == "none":
+        return "RNone"
+    if t == "te":
+        return "(RTransportError %s %s)" % (cN(res[1]) if res[1] >= 0 else "0%N", blobs.c(res[2]))
+    if t == "decode":
+        return "RDecodeFail"
+    if t == "exc" and exc_id is not None:
+        return "(RFail %s)" % cN(exc_id)
+    return "(ROther 1%N)"
+
+
+def parse_cookie_header(v):
+    out = []
+    for part in v.split(b";"):
+        part = part.strip(b" ")
+        if part:
+            k, _, val = part.partition(b"=")
+            out.append((k, val))
+    return out
+
+
+def cookie_lines(events):
+    out = []
+    for e in events:
+        if e[0] == "set":
+            ln = e[2] + b"=" + e[3]
+        else:
+            ln = e[2] + b"=gone; Max-Age=0"
+        if e[1] is not None:
+            ln += b"; Path=" + e[1].encode("ascii")
+        out.append((b"Set-Cookie", ln))
+    return out
+
+
+def run_session(server, sess, clients):
+    """Execute one session on the implementation; returns the observations (one dict per step)."""
+    from suds.transport import Request
+    t = make_transport(sess["kind"], sess["user"], sess["pw"])
+    obs = []
+    for st in sess["steps"]:
+        def script(phase, rec, st=st):
+            if phase == "accept":
+                return None
+            if st["challenge"] is not None and not any(k.lower() == b"authorization" for k, _ in rec["headers"]):
+                return Resp(401, [(b"WWW-Authenticate", b'Basic realm="c15"')], st["challenge"])
+            hs = []
+            if st["ce"] is not None:
+                hs.append((b"Content-Encoding", st["ce"]))
+            hs += cookie_lines(st["cookies"])
+            return Resp(st["status"], hs, st["body"])
+        server.begin(script)
+        url = server.base + st["path"]
+        msg = st["msg"]
+        if st["via"] is None:
+            def call(url=url, msg=msg, st=st):
+                r = Request(url, msg)
+                r.headers = dict(st["hdrs"])
+                return t.send(r)
+        else:
+            cl, tap, _ = clients[st["via"]]
+            tap.replace = msg if st["replace"] else None
+            tap.captured = None
+
+            def call(cl=cl, url=url, st=st):
+                cl.set_options(transport=t, location=url, headers=dict(st["hdrs"]))
+                return cl.service.f("vé")
+        res = classify(call)
+        if st["via"] is not None:
+            cap = clients[st["via"]][1].captured
+            msg = cap if isinstance(cap, (bytes, bytearray)) else b"\x00nothing-captured"
+        last = server.requests[-1] if server.requests else {"line": b"", "headers": [], "body": b""}
+        obs.append({"conns": server.conns, "line": last["line"], "headers": last["headers"],
+                    "body": last["body"], "result": res, "msg": bytes(msg)})
+    return obs
+
+
+# ---------------------------------------------------------------------------
+# Coq printers
+# ---------------------------------------------------------------------------
+
+def c_hdict(pairs):
+    return clist(["(%s, %s)" % (cstr(k), cbytes(v.encode("latin-1")) if isinstance(v, str) else cbytes(v))
+                  for k, v in pairs], "str * bytes")
+
+
+def c_ev(e):
+    p = copt(cstr(e[1]) if e[1] is not None else None, "str")
+    if e[0] == "set":
+        return "(CSet %s %s %s)" % (p, cbytes(e[2]), cbytes(e[3]))
+    return "(CExpire %s %s)" % (p, cbytes(e[2]))
+
+
+def c_step(sess, st, ob, clients, blobs):
+    action = None if st["via"] is None else clients[st["via"]][2]
+    q = "(mkReq %s %s %s %s)" % (copt(cbytes(action) if action is not None else None, "bytes"),
+                                 cstr(st["path"]), c_hdict(st["hdrs"]), blobs.c(ob["msg"]))
+    p = "(mkResp %s %s %s %s %s %s %s)" % (
+        blobs.copt(st["challenge"]), cN(st["status"]),
+        copt(cbytes(st["ce"]) if st["ce"] is not None else None, "bytes"),
+        blobs.c(st["body"]), blobs.copt(gunzip(st["body"])), blobs.copt(inflate(st["body"])),
+        clist([c_ev(e) for e in st["cookies"]], "cookie_ev"))
+    hdrs = [(k.decode("latin-1"), v) for k, v in ob["headers"]]
+    cookies = []
+    for k, v in ob["headers"]:
+        if k.lower() == b"cookie":
+            cookies += parse_cookie_header(v)
+    o = "(mkObs %s %s %s %s %s %s %s)" % (
+        cN(ob["conns"]), c_hdict(hdrs),
+        clist(["(%s, %s)" % (cbytes(a), cbytes(b)) for a, b in cookies], "bytes * bytes"),
+        blobs.c(ob["body"]), blobs.copt(gunzip(ob["body"])), blobs.copt(inflate(ob["body"])),
+        c_result(ob["result"], blobs))
+    return "(%s, %s, %s)" % (q, p, o)
+
+
+def c_xcase(sess, obs, clients, blobs):
+    cr = "(%s, %s)" % (copt(cstr(sess["user"]) if sess["user"] is not None else None, "str"),
+                       copt(cstr(sess["pw"]) if sess["pw"] is not None else None, "str"))
+    steps = clist([c_step(sess, st, ob, clients, blobs) for st, ob in zip(sess["steps"], obs)], "step")
+    return "(%s, %s, %s)" % (sess["kind"], cr, steps)
+
+
+# ---------------------------------------------------------------------------
+# generators (everything from ck.rng)
+# ---------------------------------------------------------------------------
+
+TOKEN_CHARS = "abcdefghijklmnopqrstuvwxyzABCDEFGHIJKLMNOPQRSTUVWXYZ0123456789!#$%&'*+-.^_`|~"
+NAME_POOL = ["X-Trace", "Accept", "x-a", "X-B3-TraceId", "User-Agent", "Accept-Encoding", "If-Match", "x.y",
+             "Accept-Language", "X_under", "MessageID", "x", "Z9", "Proxy-Authorization", "TE", "Pragma",
+             "Cache-Control", "From", "X-Forwarded-For", "traceparent"]
+# names urllib / http.client / cookiejar treat specially (framing, routing, the jar): the caller's
+# value for these is the standard library's business, they are never generated
+STDLIB_OWNED = {"content-length", "transfer-encoding", "connection", "cookie", "cookie2", "host", "expect",
+                "content-encoding", "authorization", "content-type", "soapaction"}
+PATHS = ["/svc", "/svc", "/svc/a", "/other/x", "/", "/svc2", "/other"]
+UNI_RANGES = [(0x20, 0x7e)] * 5 + [(0xa1, 0xff), (0x100, 0x17f), (0x370, 0x3ff), (0x400, 0x4ff), (0x5d0, 0x5ea),
+                                   (0x4e00, 0x9fff), (0x1f600, 0x1f64f), (0x300, 0x36f), (0x2010, 0x2027),
+                                   (0xac00, 0xd7a3), (0xfff0, 0xfffd), (0x10000, 0x1007f), (0x7f0, 0x7ff),
+                                   (0x800, 0x82f), (0xd7b0, 0xd7ff), (0xe000, 0xe00f), (0x10ff00, 0x10ffff)]
+
+
+def gen_text(rng, maxlen=16, colon=True, printable=True):
+    n = rng.choice([0, 1, 2, 3, 4, 5, 6, 8, 11, maxlen]) if rng.random() < 0.9 else rng.randrange(maxlen, 5 * maxlen)
+    out = []
+    while len(out) < n:
+        lo, hi = rng.choice(UNI_RANGES)
+        c = chr(rng.randrange(lo, hi + 1))
+        if rng.random() < 0.12:
+            c = rng.choice(">?~:>?ÿ߿ࠀ￿\U00010000\U0010ffff퟿")
+        if printable and not c.isprintable() and rng.random() < 0.9:
+            continue
+        if 0xd800 <= ord(c) <= 0xdfff:
+            continue
+        if not colon and c == ":":
+            continue
+        out.append(c)
+    return "".join(out)
+
+
+def gen_name(rng, taken):
+    for _ in range(50):
+        if rng.random() < 0.6:
+            n = rng.choice(NAME_POOL)
+            if rng.random() < 0.3:
+                n = rng.choice([n.lower(), n.upper(), n.swapcase()])
+        else:
+            n = "".join(rng.choice(TOKEN_CHARS) for _ in range(rng.choice([1, 2, 3, 5, 8, 13])))
+        if n.lower() not in STDLIB_OWNED and n.lower() not in taken:
+            return n
+    return "X-Fallback-%d" % len(taken)
+
+
+def gen_value(rng):
+    r = rng.random()
+    if r < 0.08:
+        return ""
+    if r < 0.6:
+        s = "".join(chr(rng.randrange(0x21, 0x7f)) for _ in range(rng.randrange(1, 20)))
+    elif r < 0.8:
+        s = "".join(rng.choice("abc xyz\t,;=\"/()<>@") for _ in range(rng.randrange(1, 30)))
+    elif r < 0.95:
+        s = "".join(chr(rng.choice([rng.randrange(0x21, 0x7f), rng.randrange(0xa1, 0x100)]))
+                    for _ in range(rng.randrange(1, 16)))
+    else:
+        s = "".join(chr(rng.randrange(0x21, 0x7f)) for _ in range(rng.randrange(200, 900)))
+    return s.strip(" \t")
+
+
+def gen_bytes(rng):
+    r = rng.random()
+    if r < 0.05:
+        return b""
+    if r < 0.5:
+        n = rng.randrange(1, 64)
+    elif r < 0.86:
+        n = rng.randrange(64, 2048)
+    elif r < 0.95:
+        n = rng.choice([4096, 8192, 16384, 32768, 4095, 8193])
+    else:
+        n = rng.choice([65535, 65536])
+    k = rng.randrange(5)
+    if k == 0:
+        return rng.randbytes(n)
+    if k == 1:
+        unit = "<a>é€\U0001f600 &amp; text</a>".encode("utf-8")
+        return (unit * (n // len(unit) + 1))[:n]
+    if k == 2:
+        unit = rng.randbytes(rng.randrange(1, 9))
+        return (unit * (n // len(unit) + 1))[:n]
+    if k == 3:
+        b = bytearray(rng.randbytes(n))
+        for tok in (b"\r\n\r\n", b"\x00", b"\xff\xfe", b"\r\n0\r\n\r\n", b"\x1f\x8b\x08"):
+            if n >= len(tok):
+                i = rng.randrange(0, n - len(tok) + 1)
+                b[i:i + len(tok)] = tok
+        return bytes(b)
+    return bytes(rng.choice([0x00, 0xff, 0x80, 0x0a, 0x0d, 0x20]) for _ in range(min(n, 64))) + rng.randbytes(max(0, n - 64))
+
+
+def gen_xml_reply(rng):
+    n = rng.choice([0, 5, 40, 300, 3000, 20000, 60000]) if rng.random() < 0.5 else rng.randrange(0, 200)
+    unit = rng.choice(["x", "é€", "data ", "\U0001f600"])
+    return REPLY_XML % (unit * (n // len(unit.encode("utf-8")) + 0)).encode("utf-8")
+
+
+def compress_as(label, plain):
+    if label == "gzip":
+        return gzip.compress(plain, mtime=0)
+    if label == "deflate":
+        return zlib.compress(plain)
+    return plain
+
+
+def gen_caller_headers(rng, via_client, allow_auth):
+    hd, taken = [], set()
+    for _ in range(rng.choice([0, 0, 1, 2, 3, 5])):
+        n = gen_name(rng, taken)
+        taken.add(n.lower())
+        hd.append((n, gen_value(rng)))
+    if hd and rng.random() < 0.1:
+        # a second spelling of a name already present, with its own value
+        n = hd[rng.randrange(len(hd))][0]
+        alt = [x for x in (n.lower(), n.upper(), n.swapcase()) if x != n and x not in [k for k, _ in hd]]
+        if alt:
+            hd.append((alt[0], gen_value(rng)))
+    if not via_client or rng.random() < 0.2:
+        hd.insert(rng.randrange(len(hd) + 1),
+                  (rng.choice(["Content-Type", "Content-Type", "content-type", "CONTENT-TYPE"]),
+                   rng.choice(["text/xml; charset=utf-8", "application/soap+xml; charset=utf-8", "text/xml"])))
+    if not via_client and rng.random() < 0.8 or via_client and rng.random() < 0.15:
+        hd.insert(rng.randrange(len(hd) + 1),
+                  (rng.choice(["SOAPAction", "SOAPAction", "soapaction", "SoapAction"]),
+                   rng.choice(['"urn:op"', '""', "plain", '"http://ex.org/é"'])))
+    if rng.random() < 0.35:
+        hd.insert(rng.randrange(len(hd) + 1),
+                  ("Content-Encoding", rng.choice(["gzip", "gzip", "deflate", "deflate", "identity", "br"])))
+    if allow_auth and rng.random() < 0.08:
+        hd.append((rng.choice(["Authorization", "authorization"]), "Bearer " + gen_value(rng)[:20].replace(" ", "")))
+    return hd
+
+
+def gen_cookie_events(rng):
+    evs = []
+    for _ in range(rng.choice([1, 1, 2, 3])):
+        name = rng.choice([b"sid", b"a", b"B2"])
+        path = rng.choice([None, None, None, "/svc", "/other", "/", "/svc/a"])
+        if rng.random() < 0.25:
+            evs.append(("exp", path, name))
+        else:
+            evs.append(("set", path, name, ("v%d" % rng.randrange(1000)).encode()))
+    return evs
+
+
+def gen_status(rng):
+    r = rng.random()
+    if r < 0.5:
+        return 200
+    if r < 0.62:
+        return rng.choice([201, 202, 204, 206, 226, 299])
+    if r < 0.7:
+        return rng.choice([300, 301, 302, 303, 304, 305, 307, 308, 399])
+    if r < 0.85:
+        return rng.choice([400, 401, 403, 404, 405, 407, 408, 411, 415, 499, 500, 500, 502, 503, 599])
+    return rng.randrange(400, 600)
+
+
+def gen_step(rng, via, cookies, challenge, allow_auth, status=None):
+    st = {"via": via, "replace": rng.random() < 0.6, "path": rng.choice(PATHS) if cookies else rng.choice(PATHS[:3]),
+          "hdrs": gen_caller_headers(rng, via is not None, allow_auth), "msg": gen_bytes(rng),
+          "challenge": b"credentials required" if challenge else None, "cookies": []}
+    if via is not None:
+        st["status"] = rng.choice([200, 200, 200, 201, 204]) if status is None else status
+        plain = b"" if st["status"] in NO_BODY_STATUS else gen_xml_reply(rng)
+    else:
+        st["status"] = gen_status(rng) if status is None else status
+        plain = b"" if st["status"] in NO_BODY_STATUS else gen_bytes(rng)
+    st["ce"] = None
+    st["body"] = plain
+    if 200 <= st["status"] < 300 and st["status"] not in NO_BODY_STATUS:
+        r = rng.random()
+        if r < 0.2:
+            st["ce"], st["body"] = b"gzip", compress_as("gzip", plain)
+        elif r < 0.4:
+            st["ce"], st["body"] = b"deflate", compress_as("deflate", plain)
+        elif r < 0.46 and via is None:
+            st["ce"] = rng.choice([b"identity", b"br"])
+    if cookies and 200 <= st["status"] < 300 and rng.random() < 0.75:
+        st["cookies"] = gen_cookie_events(rng)
+    return st
+
+
+def gen_session(rng, clients_n, status=None, kind=None):
+    kind = kind or rng.choice(KINDS)
+    user = pw = None
+    if kind != "TPlain":
+        r = rng.random()
+        if r < 0.75:
+            user, pw = gen_text(rng, colon=False), gen_text(rng)
+        elif r < 0.82:
+            user = gen_text(rng, colon=False)
+        elif r < 0.88:
+            pw = gen_text(rng)
+    has_creds = user is not None and pw is not None
+    cookies = rng.random() < 0.45
+    n = rng.choice([2, 3, 4, 5, 5]) if cookies else rng.choice([1, 1, 1, 2])
+    via_client = rng.random() < 0.3
+    steps = []
+    for _ in range(n):
+        via = rng.randrange(clients_n) if via_client else None
+        if kind == "TChallenge" and has_creds:
+            challenge = rng.random() < 0.6
+        else:
+            challenge = rng.random() < 0.04
+        steps.append(gen_step(rng, via, cookies, challenge, allow_auth=not (has_creds and kind != "TPlain"),
+                              status=status))
+    return {"kind": kind, "user": user, "pw": pw, "steps": steps}
+
+
+# sessions on which only model = implementation is demanded: behaviours whose reading against the
+# property text is debatable (listed in the report), each with the key it would be reported under
+QUIRKS = {
+    "ce-name-or-value-case": "C15:content-encoding-case-sensitive",
+    "reply-ce-value-case": "C15:content-encoding-case-sensitive",
+    "reply-mislabelled": None,
+    "error-reply-sets-cookie": "C15:cookies-of-error-replies-dropped",
+    "error-reply-compressed": None,
+    "colon-in-username": "C15:colon-in-username",
+    "plain-transport-with-credentials": None,
+    "caller-authorization-and-credentials": None,
+}
+
+
+def gen_quirk(rng, cat, clients_n):
+    kind = rng.choice(KINDS)
+    s = gen_session(rng, clients_n, kind=kind)
+    for st in s["steps"]:
+        st["cookies"] = []
+        st["hdrs"] = [(k, v) for k, v in st["hdrs"] if k.lower() not in ("content-encoding", "authorization")]
+    st0 = s["steps"][0]
+    if cat == "ce-name-or-value-case":
+        st0["hdrs"].append(rng.choice([("content-encoding", "gzip"), ("CONTENT-ENCODING", "deflate"),
+                                       ("Content-encoding", "gzip"), ("Content-Encoding", "GZIP"),
+                                       ("Content-Encoding", "Deflate"), ("Content-Encoding", "x-gzip")]))
+    elif cat in ("reply-ce-value-case", "reply-mislabelled"):
+        st0["via"], st0["status"] = None, 200
+        plain = gen_bytes(rng)
+        if cat == "reply-ce-value-case":
+            lab = rng.choice(["gzip", "deflate"])
+            st0["ce"] = {"gzip": rng.choice([b"GZIP", b"Gzip", b"x-gzip"]), "deflate": rng.choice([b"Deflate", b"DEFLATE"])}[lab]
+            st0["body"] = compress_as(lab, plain)
+        else:
+            st0["ce"] = rng.choice([b"gzip", b"deflate"])
+            st0["body"] = rng.choice([plain, b"\x1f\x8b\x08" + plain, compress_as("gzip" if st0["ce"] == b"deflate" else "deflate", plain)])
+    elif cat == "error-reply-sets-cookie":
+        s["steps"] = [gen_step(rng, None, True, False, False, status=rng.choice([500, 404, 302, 503])),
+                      gen_step(rng, None, True, False, False, status=200)]
+        for st in s["steps"]:
+            st["path"] = "/svc"
+        s["steps"][0]["cookies"] = [("set", None, b"sid", b"fromerror")]
+    elif cat == "error-reply-compressed":
+        st0["via"], st0["status"] = None, rng.choice([500, 404, 400, 503])
+        plain = gen_bytes(rng)
+        lab = rng.choice(["gzip", "deflate"])
+        st0["ce"], st0["body"] = lab.encode(), compress_as(lab, plain)
+    elif cat == "colon-in-username":
+        s["kind"] = rng.choice(["TBasicPre", "TChallenge"])
+        s["user"], s["pw"] = gen_text(rng, colon=False) + ":" + gen_text(rng), gen_text(rng)
+        for st in s["steps"]:
+            st["challenge"] = b"credentials required" if s["kind"] == "TChallenge" else None
+    elif cat == "plain-transport-with-credentials":
+        s["kind"], s["user"], s["pw"] = "TPlain", gen_text(rng, colon=False), gen_text(rng)
+    elif cat == "caller-authorization-and-credentials":
+        s["kind"] = rng.choice(["TBasicPre", "TChallenge"])
+        s["user"], s["pw"] = gen_text(rng, colon=False), gen_text(rng)
+        st0["hdrs"].append((rng.choice(["Authorization", "authorization", "AUTHORIZATION"]), "Bearer abc"))
+    return s
+
+
+def hexs(b):
+    return None if b is None else bytes(b).hex()
+
+
+def session_payload(sess):
+    steps = []
+    for st in sess["steps"]:
+        d = dict(st)
+        for k in ("msg", "body", "challenge", "ce"):
+            d[k] = hexs(st[k])
+        d["cookies"] = [[e[0], e[1]] + [x.decode("ascii") for x in e[2:]] for e in st["cookies"]]
+        d["hdrs"] = [[k, v] for k, v in st["hdrs"]]
+        steps.append(d)
+    return {"family": "session", "kind": sess["kind"], "user": sess["user"], "pw": sess["pw"], "steps": steps}
+
+
+def session_from_payload(p):
+    steps = []
+    for d in p["steps"]:
+        st = dict(d)
+        for k in ("msg", "body", "challenge", "ce"):
+            st[k] = None if d[k] is None else bytes.fromhex(d[k])
+        st["cookies"] = [tuple([e[0], e[1]] + [x.encode("ascii") for x in e[2:]]) for e in d["cookies"]]
+        st["hdrs"] = [(k, v) for k, v in d["hdrs"]]
+        steps.append(st)
+    return {"kind": p["kind"], "user": p["user"], "pw": p["pw"], "steps": steps}
+
+
+def describe_obs(ob):
+    r = ob["result"]
+    rr = (r[0],) + tuple((x[:40] if isinstance(x, (bytes, str)) else x) for x in r[1:3])
+    return {"conns": ob["conns"], "request_line": ob["line"].decode("latin-1"),
+            "headers": [[k.decode("latin-1"), v.decode("latin-1")] for k, v in ob["headers"]],
+            "body_len": len(ob["body"]), "body_head": ob["body"][:32].hex(), "result": repr(rr)}
+
+
+def cache_https_context():
+    """urllib.request.build_opener() (called by every send) builds an HTTPSHandler whose default
+    SSLContext loads the system CA store: ~35 ms each time.  HTTPS is never used here; hand out
+    one cached context instead (standard library only, nothing of suds is touched)."""
+    import http.client
+    orig = http.client._create_https_context
+    if getattr(orig, "_c15_cached", False):
+        return
+    cache = {}
+
+    def cached(http_version):
+        if http_version not in cache:
+            cache[http_version] = orig(http_version)
+        return cache[http_version]
+    cached._c15_cached = True
+    http.client._create_https_context = cached
